@@ -60,6 +60,15 @@ pub fn check_bfs<D: Order + OutNeighbors + Clone>(g: &D, name: &str, m: &UModel,
     ensure!(seq_l == seq, "Bfs<{name}>: sources passed through `filter` give {seq_l:?}, passed directly {seq:?}");
     let items_l: Vec<(usize, usize)> = BfsDist::new(g, lazy()).collect();
     ensure!(items_l == items, "BfsDist<{name}>: sources passed through `filter` give {items_l:?}, passed directly {items:?}");
+    {
+        // a draining iterator whose clones share one cursor
+        let q = gen::shared_queue(sources);
+        let seq_s: Vec<usize> = Bfs::new(g, gen::shared_cursor(&q)).collect();
+        ensure!(seq_s == seq, "Bfs<{name}>: sources from a draining iterator whose clones share their cursor give {seq_s:?}, passed directly {seq:?}");
+        let q = gen::shared_queue(sources);
+        let items_s: Vec<(usize, usize)> = BfsDist::new(g, gen::shared_cursor(&q)).collect();
+        ensure!(items_s == items, "BfsDist<{name}>: sources from a draining iterator whose clones share their cursor give {items_s:?}, passed directly {items:?}");
+    }
     let h = gen::hint_pick(sources.len(), n + m.size());
     let seq_h: Vec<usize> = Bfs::new(g, gen::hinted(sources.to_vec(), h)).collect();
     ensure!(seq_h == seq, "Bfs<{name}>: sources from an iterator with size_hint {h:?} give {seq_h:?}, passed directly {seq:?}");
